@@ -2,10 +2,10 @@ import H2V.Lemmas.ConnDrainPTurn
 import H2V.Lemmas.ConnRecvPReach
 import H2V.Lemmas.ConnDrainPCapE
 /-
-  ConnDrainP, part 11 — `SReach`: stream-layer states that the reachability notions of ConnFlowP, ConnCountsP and
-  ConnRecvP all accept (closed under every call the connection task makes, with the decoder's bounds on
-  WINDOW_UPDATE increments and SETTINGS_INITIAL_WINDOW_SIZE); the frames `Codec::poll_next` yields meet those
-  bounds (`pollNext_frameOk`).
+  ConnDrainP, part 11 — `SReach`: the stream-layer invariants of ConnFlowP (+ `CapInv`), ConnCountsP and ConnRecvP
+  together, closed under every call the connection task makes (with the decoder's bounds on WINDOW_UPDATE
+  increments and SETTINGS_INITIAL_WINDOW_SIZE); the frames `Codec::poll_next` yields meet those bounds
+  (`pollNext_frameOk`).
 -/
 namespace H2V.Lemmas.ConnDrainP
 open H2V H2V.Model H2V.Model.Conn
@@ -55,74 +55,98 @@ theorem pollNext_frameOk (n : Nat) : ∀ (c c' : Codec) (tag : String) (f : Fram
           all_goals cases h
 
 
--- ===================================================================== stream-layer states every family accepts
+-- ===================================================================== the stream-layer invariants of all families together
 
-/-- a stream-layer state reachable in the sense of all three lemma families whose invariants are used here:
-    ConnFlowP (send-flow safety), ConnCountsP (queue ↔ flag consistency), ConnRecvP (receive windows); plus `KInv`
-    (ConnDrainPCapA…E: nobody waits in `pending_capacity` while the connection has capacity to give), which
-    ConnFlowP's `Reach` does not give because its initial states leave `pending_capacity` unconstrained -/
+/-- the stream-layer invariants this family needs, from four families: `KInv` (ConnFlowP's send-flow safety and
+    `u32` requests, plus `CapInv` — ConnDrainPCapA…E), ConnCountsP's key/next-id facts and queue ↔ flag consistency of
+    `pending_send` / `pending_capacity` (as long as no `assert!` fired), ConnRecvP's connection-level receive-window
+    invariant.  Kept in invariant form (not as the families' `Reach` predicates) so that any call with an `Ev` /
+    `Ext` frame lemma can be added (`SReach.of_ev`), e.g. `poll_pushed`, which those `Reach` definitions predate. -/
 structure SReach (s : Streams) : Prop where
-  flow : ConnFlowP.Reach s
-  cnt : ConnCountsP.Reach s
-  rv : ∃ g, ConnRecvP.Reach g s
   k : KInv s
+  keys : ConnCountsP.KeysOK s
+  nx : ConnCountsP.NextLocal s
+  q : s.panicked = none → ConnCountsP.QOK .pendingSend s ∧ ConnCountsP.QOK .pendingCapacity s
+  rv : ∃ g, ConnRecvP.Inv false g s
 
 theorem SReach.pinv {s : Streams} (h : SReach s) (hp : s.panicked = none) : PInv s ∧ RangeOK s := by
-  refine ⟨⟨h.flow.safe, h.flow.reqOk, h.cnt.qok hp _ (by decide), h.cnt.qok hp _ (by decide)⟩, ?_⟩
-  obtain ⟨g, hr⟩ := h.rv
-  have hi := ConnRecvP.reach_inv hr
+  refine ⟨⟨h.k.safe, h.k.req, (h.q hp).1, (h.q hp).2⟩, ?_⟩
+  obtain ⟨g, hi⟩ := h.rv
   have h1 := (Comp.inI32_iff _).1 hi.aI32
   have h2 := (Comp.inI32_iff _).1 hi.wI32
   exact ⟨h1.2, h2.1⟩
 
-/-- one call with `True` validity in ConnRecvP -/
-theorem SReach.step {s s' : Streams} (h : SReach s) (h1 : ConnFlowP.Reach s') (hk : KInv s')
+/-- what ConnCountsP's evolution relation keeps -/
+theorem SReach.cnt_ev {s s' : Streams} (h : SReach s) (e : ConnCountsP.EvT s s') :
+    ConnCountsP.KeysOK s' ∧ ConnCountsP.NextLocal s' ∧
+    (s'.panicked = none → ConnCountsP.QOK .pendingSend s' ∧ ConnCountsP.QOK .pendingCapacity s') := by
+  refine ⟨e.keysOK h.keys, e.nx.nextLocal h.nx, fun hp => ?_⟩
+  have e1 := e.qstep .pendingSend (by decide)
+  have e2 := e.qstep .pendingCapacity (by decide)
+  have hq := h.q (ConnCountsP.panicked_none_of e1.mono hp)
+  exact ⟨e1.ok hp hq.1, e2.ok hp hq.2⟩
+
+/-- a call with frame lemmas of ConnCountsP (`Ev`) and ConnRecvP (`Ext`) -/
+theorem SReach.of_ev {s s' : Streams} (h : SReach s) (hk : KInv s') (e : ConnCountsP.EvT s s') (x : ConnRecvP.Ext s s') :
+    SReach s' := by
+  obtain ⟨g, hi⟩ := h.rv
+  have c := h.cnt_ev e
+  exact ⟨hk, c.1, c.2.1, c.2.2, ⟨g, hi.of_ext x⟩⟩
+
+/-- one call of the `Streams` API (a step of ConnCountsP's `ApiStep`, an `Op` of ConnRecvP) -/
+theorem SReach.step {s s' : Streams} (h : SReach s) (hk : KInv s')
     (h2 : ConnCountsP.ApiStep s s') (op : ConnRecvP.Op) (hv : op.valid s) (he : op.apply s = s') : SReach s' := by
-  obtain ⟨g, hr⟩ := h.rv
-  exact ⟨h1, .step h.cnt h2, ⟨_, he ▸ ConnRecvP.Reach.step op hr hv⟩, hk⟩
+  obtain ⟨g, hi⟩ := h.rv
+  have c := h.cnt_ev (h2.evT h.keys h.nx)
+  exact ⟨hk, c.1, c.2.1, c.2.2, ⟨_, he ▸ (op.step_inv hi hv).1⟩⟩
+
+/-- states the three `Reach` predicates accept satisfy it (used for the fresh connection) -/
+theorem SReach.of_reach {s : Streams} (hk : KInv s) (hc : ConnCountsP.Reach s) {g : ConnRecvP.Ghost} (hr : ConnRecvP.Reach g s) :
+    SReach s :=
+  ⟨hk, hc.inv.1, hc.inv.2.1, fun hp => ⟨hc.qok hp _ (by decide), hc.qok hp _ (by decide)⟩, ⟨g, ConnRecvP.reach_inv hr⟩⟩
 
 section
 variable {s : Streams} (h : SReach s)
 include h
 
 theorem SReach.recvHeaders (hd : HeadersIn) : SReach (s.recvHeaders hd).1 :=
-  h.step (.recvHeaders hd h.flow) (h.k.recvHeaders hd) (.recvHeaders s hd) (.recvHeaders hd) trivial rfl
+  h.step (h.k.recvHeaders hd) (.recvHeaders s hd) (.recvHeaders hd) trivial rfl
 theorem SReach.recvData (id : Nat) (p : Bytes) (e : Bool) (pl : Option Nat) : SReach (s.recvData id p e pl).1 :=
-  h.step (.recvData id p e pl h.flow) (h.k.recvData id p e pl) (.recvData s id p e pl) (.recvData id p e pl) trivial rfl
+  h.step (h.k.recvData id p e pl) (.recvData s id p e pl) (.recvData id p e pl) trivial rfl
 theorem SReach.recvReset (id : Nat) (r : Reason) : SReach (s.recvReset id r).1 :=
-  h.step (.recvReset id r h.flow) (h.k.recvReset id r) (.recvReset s id r) (.recvReset id r) trivial rfl
+  h.step (h.k.recvReset id r) (.recvReset s id r) (.recvReset id r) trivial rfl
 theorem SReach.recvPushPromise (id : Nat) (hd : HeadersIn) : SReach (s.recvPushPromise id hd).1 :=
-  h.step (.recvPushPromise id hd h.flow) (h.k.recvPushPromise id hd) (.recvPushPromise s id hd) (.recvPushPromise id hd) trivial rfl
+  h.step (h.k.recvPushPromise id hd) (.recvPushPromise s id hd) (.recvPushPromise id hd) trivial rfl
 theorem SReach.recvGoAwayFrame (l : Nat) (r : Reason) (d : Bytes) : SReach (s.recvGoAwayFrame l r d).1 :=
-  h.step (.recvGoAwayFrame l r d h.flow) (h.k.recvGoAwayFrame l r d) (.recvGoAwayFrame s l r d) (.recvGoAwayFrame l r d) trivial rfl
+  h.step (h.k.recvGoAwayFrame l r d) (.recvGoAwayFrame s l r d) (.recvGoAwayFrame l r d) trivial rfl
 theorem SReach.recvWindowUpdate (id inc : Nat) (hi : inc ≤ 2147483647) : SReach (s.recvWindowUpdate id inc).1 :=
-  h.step (.recvWindowUpdate id inc hi h.flow) (h.k.recvWindowUpdate id inc hi) (.recvWindowUpdate s id inc) (.recvWindowUpdate id inc) trivial rfl
+  h.step (h.k.recvWindowUpdate id inc hi) (.recvWindowUpdate s id inc) (.recvWindowUpdate id inc) trivial rfl
 theorem SReach.recvEof (b : Bool) : SReach (s.recvEof b) :=
-  h.step (.recvEof b h.flow) (h.k.recvEof b) (.recvEof s b) (.recvEof b) trivial rfl
+  h.step (h.k.recvEof b) (.recvEof s b) (.recvEof b) trivial rfl
 theorem SReach.handleError (e : PErr) : SReach (s.handleError e).1 :=
-  h.step (.handleError e h.flow) (h.k.handleError e) (.handleError s e) (.handleError e) trivial rfl
+  h.step (h.k.handleError e) (.handleError s e) (.handleError e) trivial rfl
 theorem SReach.innerSendReset (id : Nat) (r : Reason) : SReach (s.innerSendReset id r).1 :=
-  h.step (.innerSendReset id r h.flow) (h.k.innerSendReset id r) (.innerSendReset s id r) (.innerSendReset id r) trivial rfl
+  h.step (h.k.innerSendReset id r) (.innerSendReset s id r) (.innerSendReset id r) trivial rfl
 theorem SReach.recvGoAway (l : Nat) : SReach (s.recvGoAway l) :=
-  h.step (.recvGoAway l h.flow) (h.k.recvGoAway l) (.recvGoAway s l) (.recvGoAway l) trivial rfl
+  h.step (h.k.recvGoAway l) (.recvGoAway s l) (.recvGoAway l) trivial rfl
 theorem SReach.applyRemoteSettings (v : List (Nat × Nat)) (b : Bool) (hv : SettingsOk v) : SReach (s.applyRemoteSettings v b).1 :=
-  h.step (.applyRemoteSettings v b hv h.flow) (h.k.applyRemoteSettings v b hv) (.applyRemoteSettings s v b) (.applyRemoteSettings v b) trivial rfl
+  h.step (h.k.applyRemoteSettings v b hv) (.applyRemoteSettings s v b) (.applyRemoteSettings v b) trivial rfl
 theorem SReach.applyLocalSettingsFrame (v : List (Nat × Nat)) (hv : ∀ t, ConnRecvP.settingsIws v = some t → t ≤ 2147483647) :
     SReach (s.applyLocalSettingsFrame v).1 :=
-  h.step (.applyLocalSettingsFrame v h.flow) (h.k.applyLocalSettingsFrame v) (.applyLocalSettingsFrame s v) (.applyLocalSettings v) hv rfl
+  h.step (h.k.applyLocalSettingsFrame v) (.applyLocalSettingsFrame s v) (.applyLocalSettings v) hv rfl
 theorem SReach.setTargetConnectionWindow (t : Nat) (ht : t ≤ 2147483647) : SReach (s.setTargetConnectionWindow t).1 :=
-  h.step (.setTargetConnectionWindow t h.flow) (h.k.setTargetConnectionWindow t) (.setTargetConnectionWindow s t) (.setTargetConnectionWindow t) ht rfl
+  h.step (h.k.setTargetConnectionWindow t) (.setTargetConnectionWindow s t) (.setTargetConnectionWindow t) ht rfl
 theorem SReach.clearExpiredResetStreams (n : Nat) : SReach (Streams.clearExpiredResetStreams n s) :=
-  h.step (.clearExpiredResetStreams n h.flow) (KInv.clearExpiredResetStreams n h.k) (.clearExpiredResetStreams n s) (.clearExpiredResetStreams n) trivial rfl
+  h.step (KInv.clearExpiredResetStreams n h.k) (.clearExpiredResetStreams n s) (.clearExpiredResetStreams n) trivial rfl
 theorem SReach.pollComplete (n : Nat) (w : Writer) (io : Tio) (t : String) : SReach (Streams.pollComplete n s w io t).1 :=
-  h.step (.pollComplete n w io t h.flow) (KInv.pollComplete n h.k w io t) (.pollComplete n s w io t) (.pollComplete n w io t) trivial rfl
+  h.step (KInv.pollComplete n h.k w io t) (.pollComplete n s w io t) (.pollComplete n w io t) trivial rfl
 theorem SReach.pollSendPendingRefusal (n : Nat) (w : Writer) (io : Tio) (t : String) :
     SReach (Streams.pollSendPendingRefusal n s w io t).1 :=
-  h.step (.pollSendPendingRefusal n w io t h.flow) (KInv.pollSendPendingRefusal n h.k w io t) (.pollSendPendingRefusal n s w io t) (.pollSendPendingRefusal n w io t) trivial rfl
+  h.step (KInv.pollSendPendingRefusal n h.k w io t) (.pollSendPendingRefusal n s w io t) (.pollSendPendingRefusal n w io t) trivial rfl
 theorem SReach.wake (t : List String) : SReach (s.wake t) :=
-  h.step (.wake t h.flow) (h.k.wake t) (.wake s t) (.wake t) trivial rfl
+  h.step (h.k.wake t) (.wake s t) (.wake t) trivial rfl
 theorem SReach.panic (m : String) : SReach (s.panic m) :=
-  h.step (.panic m h.flow) (h.k.panic m) (.panic s m) (.panic m) trivial rfl
+  h.step (h.k.panic m) (.panic s m) (.panic m) trivial rfl
 
 end
 
